@@ -607,6 +607,42 @@ Print Assumptions C19_alm_zerofpr_stop_ends_run.
 Print Assumptions C19_alm_pantr_stop_ends_run.
 Print Assumptions C19_alm_fista_stop_ends_run.
 
+(* ====================================================================== under ALM: the SHIPPED PANTR stack (stateful TR provider) *)
+(* C19_alm_pantr_stop_ends_run for ALMSolver<PANTRSolver<DirectionProviderT>> (AlmPantrDir.alm_pantr_dir: any trdirops — NewtonTRDirection
+   over SteihaugCG is the instance the library ships —, any initial provider state).  By the whole-run refinement
+   AlmPantrDirRefine.alm_pantr_dir_refines the provider run has the trace and final statistics of the oracle-direction run for the oracle
+   "j-th apply call of the whole run returned what the provider returned there", so (A)–(D) hold with that oracle's inner solves:
+   (A) request visible when the inner solve of rc returns => the run ends at rc, NO further inner solve (in particular no further
+   direction call: no Hessian product, no CG iteration); (B) a poll of that solve saw it => prompt as stand-alone (0 further oracle
+   calls, 0 direction calls); (C) visible at the start => start-up + one stop check; (D) Interrupted propagated at once. *)
+From Alpaqa Require Import DirectionsTR PantrDir PantrDirProofs AlmPantrDir AlmPantrDirRefine.
+Theorem C19_alm_pantr_provider_stop_ends_run :
+  forall (Pb : problem (T:=R)) (prov : fn -> bool) (wm_supplied : list R -> list R) (Clb Cub : list (option R)) (l1 : list R) (split : nat)
+    (D : Type) (ops : trdirops R D) stop_req time_up (outer_oot : nat -> bool) (TP : trparams (T:=R)) (AP : alm_params (T:=R)) (bt_fuel inner_fuel : nat),
+  sticky stop_req -> forall (d0 : D) outer_fuel nanv Σ0 y0 x0 coD,
+  alm_pantr_dir Pb prov wm_supplied Clb Cub l1 split D ops stop_req time_up outer_oot TP AP bt_fuel inner_fuel d0 outer_fuel nanv Σ0 y0 x0 = Some coD ->
+  let tr_dir := oracle_of (tcalls D (co_logs coD)) in
+  let has_initial := td_has_initial D ops in
+  forall pre rc post, co_trace coD = pre ++ rc :: post ->
+  exists (x : list R) (w : counters) (x' : list R) (lg : tresult (T:=R)) (w' : counters),
+    AlmComposeProofs.called counters (tresult (T:=R)) (tinner Pb prov wm_supplied Clb Cub l1 tr_dir has_initial stop_req time_up outer_oot TP bt_fuel inner_fuel) x0 cnt0 pre x w /\
+    tinner Pb prov wm_supplied Clb Cub l1 tr_dir has_initial stop_req time_up outer_oot TP bt_fuel inner_fuel
+           w (it_i rc) x (it_y rc) (it_Sigma rc) (it_tol rc) (it_err_in rc) = Some (it_res rc, x', lg, w') /\
+    (stop_req w' = true -> run_ends_at AP (pb_of Pb split) pre rc post (co_final coD)) /\
+    (forall pp o, lg = TDone o ->
+       tinner_polled Pb prov wm_supplied Clb Cub l1 tr_dir has_initial stop_req time_up TP bt_fuel w x (it_y rc) (it_Sigma rc) (it_tol rc) (it_err_in rc) pp ->
+       stop_req (cadd w (pp_cnt pp)) = true -> tprompt_after (tr_with_opts TP (it_tol rc)) pp o /\ stop_req w' = true) /\
+    (stop_req w = true -> tone_check lg (it_res rc) /\ stop_req w' = true) /\
+    (ir_status (it_res rc) = Interrupted -> post = [] /\ f_status (co_final coD) = Interrupted).
+Proof.
+  intros Pb prov wm Clb Cub l1 split D ops stop_req time_up outer_oot TP AP bt_fuel inner_fuel Hs d0 outer_fuel nanv Σ0 y0 x0 coD HrunD tr_dir has_initial pre rc post Etr.
+  destruct (alm_pantr_dir_refines Pb prov wm Clb Cub l1 split D ops stop_req time_up outer_oot TP AP bt_fuel inner_fuel d0 outer_fuel nanv Σ0 y0 x0 coD HrunD)
+    as (co & Hrun & Et & Ef & _).
+  rewrite <- Et in Etr. rewrite <- Ef.
+  exact (alm_pantr_stop_ends_run Pb prov wm Clb Cub l1 split tr_dir has_initial stop_req time_up outer_oot TP AP bt_fuel inner_fuel Hs outer_fuel nanv Σ0 y0 x0 co Hrun pre rc post Etr).
+Qed.
+Print Assumptions C19_alm_pantr_provider_stop_ends_run.
+
 (* ====================================================================== PANOC-OCP (PanocOcpLoop.v), every number system *)
 From Alpaqa Require PanocOcpLoop StopPromptOcp.
 Module C19_OCP.
